@@ -441,6 +441,90 @@ theorem C02_index_order_asc_counterexample : ¬ C02_index_order_asc_full := by
   have := h .null (.int 1)
   simp [vcmp, keyCmp, Value.isNull] at this
 
+
+/-! ### the guard of `index_order_equals_sort_order` is necessary and sufficient pointwise -/
+
+/-- forward index order and ascending sort order agree on a pair of column values exactly when both
+or neither is NULL: one NULL in the ordered columns breaks the agreement (the ASC rule "every
+ordered column NOT NULL", for *every* ordered column, not only the leading one) -/
+theorem C02_index_order_asc_iff (t : KTy) (a b : Value) (ha : a.hasTy t = true) (hb : b.hasTy t = true) :
+    vcmp a b = keyCmp .asc a b ↔ a.isNull = b.isNull := by
+  cases t <;> cases a <;> cases b <;>
+    simp_all [vcmp, keyCmp, cmpNonNull, Value.hasTy, Value.isNull, Value.cmp?]
+
+def ascKey (k : Key) : SortKey := k.map (fun v => (v, Dir.asc))
+def descKey (k : Key) : SortKey := k.map (fun v => (v, Dir.desc))
+
+def typedKey : List KTy → Key → Bool
+  | [], [] => true
+  | t :: ts, v :: vs => v.hasTy t && typedKey ts vs
+  | _, _ => false
+
+/-- composite keys without NULL: the index order of the key vectors is the ascending
+lexicographic sort order of ORDER BY over the same columns -/
+theorem C02_composite_order_asc_agrees (tys : List KTy) (ka kb : Key)
+    (ha : typedKey tys ka = true) (hb : typedKey tys kb = true)
+    (na : ∀ v ∈ ka, v.isNull = false) (nb : ∀ v ∈ kb, v.isNull = false) :
+    kcmp ka kb = keysCmp (ascKey ka) (ascKey kb) := by
+  induction tys generalizing ka kb with
+  | nil =>
+    cases ka <;> cases kb <;> simp_all [typedKey, kcmp, keysCmp, ascKey]
+  | cons t ts ih =>
+    cases ka with
+    | nil => simp [typedKey] at ha
+    | cons x xs =>
+      cases kb with
+      | nil => simp [typedKey] at hb
+      | cons y ys =>
+        simp only [typedKey, Bool.and_eq_true] at ha hb
+        have hx := na x (List.mem_cons_self)
+        have hy := nb y (List.mem_cons_self)
+        have h1 := C02_index_order_asc_agrees t x y ha.1 hb.1 hx hy
+        have ih' := ih xs ys ha.2 hb.2 (fun v hv => na v (List.mem_cons_of_mem _ hv))
+          (fun v hv => nb v (List.mem_cons_of_mem _ hv))
+        simp only [kcmp, ascKey, List.map_cons, keysCmp] at ih' ⊢
+        rw [h1]
+        cases keyCmp Dir.asc x y <;> simp [ih', ascKey]
+
+/-- the reversed index order of composite keys is the all-DESC sort order, NULLs included -/
+theorem C02_composite_order_desc_agrees (tys : List KTy) (ka kb : Key)
+    (ha : typedKey tys ka = true) (hb : typedKey tys kb = true) :
+    (kcmp ka kb).swap = keysCmp (descKey ka) (descKey kb) := by
+  induction tys generalizing ka kb with
+  | nil =>
+    cases ka <;> cases kb <;> simp_all [typedKey, kcmp, keysCmp, descKey, Ordering.swap]
+  | cons t ts ih =>
+    cases ka with
+    | nil => simp [typedKey] at ha
+    | cons x xs =>
+      cases kb with
+      | nil => simp [typedKey] at hb
+      | cons y ys =>
+        simp only [typedKey, Bool.and_eq_true] at ha hb
+        have h1 := C02_index_order_desc_agrees t x y ha.1 hb.1
+        have ih' := ih xs ys ha.2 hb.2
+        simp only [kcmp, descKey, List.map_cons, keysCmp] at ih' ⊢
+        rw [← h1]
+        cases vcmp x y <;> first
+          | (simp [Ordering.swap]; done)
+          | (simp only [Ordering.swap]; rw [← ih']; cases kcmp xs ys <;> rfl)
+
+/-- a NULL in a NON-leading ordered column already breaks the ascending agreement: index (a, b),
+rows (1, NULL) and (1, 2) — the index puts (1, NULL) first, ORDER BY a, b puts it last.  The guard
+must therefore look at every ordered column (seeded change C02-4 looked at the first only). -/
+theorem C02_composite_null_counterexample :
+    kcmp [.int 1, .null] [.int 1, .int 2] = .lt ∧
+      keysCmp (ascKey [.int 1, .null]) (ascKey [.int 1, .int 2]) = .gt := by decide
+
+/-- a truncated (prefix-length) key does not order like the value: 'abz' > 'abc' but their 2-character
+keys are equal, so the index keeps them in insertion order — in any key position.  The guard must
+therefore reject a prefix length on *any* ordered column (seeded changes C08-4 / C21-4). -/
+theorem C02_prefix_order_counterexample :
+    vcmp (.str "abz") (.str "abc") = .gt ∧
+      vcmp (truncValue 2 (.str "abz")) (truncValue 2 (.str "abc")) = .eq ∧
+      kcmp [.int 1, truncValue 2 (.str "abz")] [.int 1, truncValue 2 (.str "abc")] = .eq ∧
+      keysCmp (ascKey [.int 1, .str "abz"]) (ascKey [.int 1, .str "abc"]) = .gt := by decide
+
 /-! ### extraction of the range from WHERE (samples of the AND-merge; the correspondence run
 compares `extractRange` ∘ `rangeScan` with the engine end to end) -/
 
